@@ -85,5 +85,20 @@ func newOmapIter(m *omap) *omapIter {
 	// Go semantics allow entries added during iteration to be visited or not;
 	// we iterate over a snapshot of the keys present at the start, skipping
 	// none (deleted-during-iteration entries are rare in the code under test).
-	return &omapIter{keys: append([]value(nil), m.keys...), vals: append([]value(nil), m.vals...)}
+	it := &omapIter{keys: append([]value(nil), m.keys...), vals: append([]value(nil), m.vals...)}
+	// verifMapOrders(true): Go leaves the iteration order of a map unspecified; every order of a map of 2 or 3
+	// entries is explored (a fork). Larger maps keep the insertion order.
+	if n := len(it.keys); X != nil && X.mapOrders && n >= 2 && n <= 3 {
+		perms := [][]int{{0, 1}, {1, 0}}
+		if n == 3 {
+			perms = [][]int{{0, 1, 2}, {0, 2, 1}, {1, 0, 2}, {1, 2, 0}, {2, 0, 1}, {2, 1, 0}}
+		}
+		p := perms[X.chooseKey("maporder", len(perms))]
+		ks, vs := make([]value, n), make([]value, n)
+		for i, j := range p {
+			ks[i], vs[i] = it.keys[j], it.vals[j]
+		}
+		it.keys, it.vals = ks, vs
+	}
+	return it
 }
